@@ -51,8 +51,9 @@ type outReq struct {
 }
 
 type issuerSet struct {
-	seed int64
-	t3w  map[string]*t3World
+	seed     int64
+	t3w      map[string]*t3World
+	keyIDLen int // != 0: requests are created with a key id argument of this length (kind OddKeyID)
 	// one client object per token type, constructed once and used for every
 	// request of a run (clients are meant to be long-lived objects)
 	c1 *type1.BasicPrivateClient
@@ -129,6 +130,18 @@ func (s *issuerSet) world(key string, origin string) *t3World {
 func rsaIdx(key string) int { return map[string]int{"k1": 0, "k2": 1}[key] }
 
 // create builds a request of type t pinned to issuer key `key`.
+// oddKeyID: the key id argument in an unusual length (s.keyIDLen != 0): the true id with leading zero bytes, or only
+// its last bytes - the byte the request carries (the last one) stays the issuer's.
+func (s *issuerSet) oddKeyID(id []byte) []byte {
+	if s.keyIDLen == 0 || s.keyIDLen == len(id) {
+		return id
+	}
+	if s.keyIDLen > len(id) {
+		return append(make([]byte, s.keyIDLen-len(id)), id...)
+	}
+	return append([]byte{}, id[len(id)-s.keyIDLen:]...)
+}
+
 func (s *issuerSet) create(t, n int, key string, challenge []byte, nonces [][]byte, origin string, clientName string) *outReq {
 	o := &outReq{t: t, n: n, nonces: nonces, challenge: challenge}
 	// The client is handed private copies of every argument, and the copies
@@ -154,7 +167,7 @@ func (s *issuerSet) create(t, n int, key string, challenge []byte, nonces [][]by
 		k := s.voprf(1, key)
 		iss := type1.NewBasicPrivateIssuer(k)
 		o.pubBytes, _ = iss.TokenKey().MarshalBinary()
-		keyIDArg = iss.TokenKeyID()
+		keyIDArg = s.oddKeyID(iss.TokenKeyID())
 		st, err := s.client1().CreateTokenRequest(challenge, nonces[0], keyIDArg, iss.TokenKey())
 		o.createErr = err
 		if err == nil {
@@ -175,7 +188,7 @@ func (s *issuerSet) create(t, n int, key string, challenge []byte, nonces [][]by
 		k := s.voprf(5, key)
 		iss := type5.NewBatchedPrivateIssuer(k)
 		o.pubBytes, _ = iss.TokenKey().MarshalBinary()
-		keyIDArg = iss.TokenKeyID()
+		keyIDArg = s.oddKeyID(iss.TokenKeyID())
 		st, err := s.client5().CreateTokenRequest(challenge, nonces, keyIDArg, iss.TokenKey())
 		o.createErr = err
 		if err == nil {
@@ -190,7 +203,7 @@ func (s *issuerSet) create(t, n int, key string, challenge []byte, nonces [][]by
 		k := rsaKey(rsaIdx(key))
 		iss := type2.NewBasicPublicIssuer(k)
 		o.pubBytes, _ = util.MarshalTokenKeyPSSOID(iss.TokenKey())
-		st, err := type2.NewBasicPublicClient().CreateTokenRequest(challenge, nonces[0], iss.TokenKeyID(), iss.TokenKey())
+		st, err := type2.NewBasicPublicClient().CreateTokenRequest(challenge, nonces[0], s.oddKeyID(iss.TokenKeyID()), iss.TokenKey())
 		o.createErr = err
 		if err == nil {
 			o.reqBytes = append([]byte{}, st.Request().Marshal()...)
@@ -311,6 +324,8 @@ func execIssuance(c *ctx, in ev) []ev {
 		return execVectors(c, in)
 	case "DetStress":
 		return execDetStress(c, in)
+	case "RunSeq":
+		return execRunSeq(c, in)
 	}
 	return []ev{{"op": "unknown"}}
 }
@@ -328,6 +343,9 @@ func execRun(c *ctx, in ev) ev {
 	nonceLen := 32
 	if kind == "OddNonce" {
 		nonceLen = jInt(mut["len"])
+	}
+	if kind == "OddKeyID" {
+		s.keyIDLen = jInt(mut["len"])
 	}
 	mkNonces := func() [][]byte {
 		ns := [][]byte{}
@@ -512,7 +530,10 @@ func (w *verifyWorld) step(c *ctx, tm map[string]any, r *rand.Rand) ev {
 	e := ev{"op": "Verify", "t": t, "tmut": tm, "ok": false, "ref_ok": false, "panic": ""}
 	e["panic"] = guard(func() {
 		cp := func(b []byte) []byte { return append([]byte{}, b...) }
-		tok := tokens.Token{TokenType: w.tok.TokenType, Nonce: cp(w.tok.Nonce), Context: cp(w.tok.Context), KeyID: cp(w.tok.KeyID), Authenticator: cp(w.tok.Authenticator)}
+		// the token VALUE as the library returned it (a struct copy keeps whatever the library keeps inside it), with
+		// private copies of the field slices so that alterations never touch the shared honest token
+		tok := w.tok
+		tok.Nonce, tok.Context, tok.KeyID, tok.Authenticator = cp(w.tok.Nonce), cp(w.tok.Context), cp(w.tok.KeyID), cp(w.tok.Authenticator)
 		useOther := false
 		switch kind {
 		case "Id":
@@ -860,6 +881,18 @@ func detBlind(seed int64, t int, name string) []byte {
 	}
 }
 
+// detSalt: the salt argument of a matrix row. "empty" and "nil" are the zero-length salts (the request is still a
+// function of the arguments; such a request cannot be finalized, which Trace_Issuance knows).
+func detSalt(seed int64, name string, arg func([]byte) []byte) []byte {
+	switch name {
+	case "nil":
+		return nil
+	case "empty":
+		return []byte{}
+	}
+	return arg(hashBytes(seed, "det-salt-"+name, 48))
+}
+
 func execDet(c *ctx, in ev) []ev {
 	out := []ev{{"op": "DetNew"}}
 	reqs, toks := &interner{m: map[string]string{}, p: "q"}, &interner{m: map[string]string{}, p: "t"}
@@ -931,7 +964,7 @@ func execDet(c *ctx, in ev) []ev {
 				k := rsaKey(rsaIdx(key))
 				iss := type2.NewBasicPublicIssuer(k)
 				st, err := type2.NewBasicPublicClient().CreateTokenRequestWithBlind(challenge, nonce, iss.TokenKeyID(), iss.TokenKey(),
-					arg(&own, "blind2", detBlind(c.seed, 2, blind)), arg(&own, "salt", hashBytes(c.seed, "det-salt-"+salt, 48)))
+					arg(&own, "blind2", detBlind(c.seed, 2, blind)), detSalt(c.seed, salt, func(b []byte) []byte { return arg(&own, "salt", b) }))
 				if err != nil {
 					e["err"] = err.Error()
 					return
@@ -1067,6 +1100,129 @@ func execDet(c *ctx, in ev) []ev {
 		}
 		out = append(out, pe.e)
 	}
+	return out
+}
+
+// execRunSeq: a sequence of honest issuances of one type through LONG-LIVED objects, as a deployment has them: one
+// issuer, ONE request object on the issuer side that every incoming request is decoded into (types 1, 2, 5), the
+// client's tokens kept until the end. Every run must complete with tokens that pass the independent oracle, and the
+// tokens handed out earlier must still read and verify as they did when they were returned.
+func execRunSeq(c *ctx, in ev) []ev {
+	t := gI(in, "t")
+	r := newRand(c.seed, fmt.Sprintf("runseq-%v", in["sid"]))
+	out := []ev{}
+	var kept []tokens.Token
+	var keptBytes [][]byte
+	var oracle func(tokens.Token) bool
+	var one func(n int, challenge []byte) ([]tokens.Token, error)
+	switch t {
+	case 1:
+		k := p384Key(c.seed, "k1")
+		iss := type1.NewBasicPrivateIssuer(k)
+		reqObj := new(type1.BasicPrivateTokenRequest)
+		oracle = func(tok tokens.Token) bool {
+			return tok.TokenType == 1 && bytes.Equal(fullEvaluate(oprf.SuiteP384, k, authInput(tok)), tok.Authenticator)
+		}
+		one = func(n int, challenge []byte) ([]tokens.Token, error) {
+			st, err := type1.NewBasicPrivateClient().CreateTokenRequest(challenge, randNonce(r), iss.TokenKeyID(), iss.TokenKey())
+			if err != nil {
+				return nil, err
+			}
+			if !reqObj.Unmarshal(append([]byte{}, st.Request().Marshal()...)) {
+				return nil, fmt.Errorf("request does not decode")
+			}
+			resp, err := iss.Evaluate(reqObj)
+			if err != nil {
+				return nil, err
+			}
+			tok, err := st.FinalizeToken(resp)
+			return []tokens.Token{tok}, err
+		}
+	case 2:
+		k := rsaKey(1)
+		iss := type2.NewBasicPublicIssuer(k)
+		reqObj := new(type2.BasicPublicTokenRequest)
+		oracle = func(tok tokens.Token) bool { return tok.TokenType == 2 && verifyPSS(&k.PublicKey, tok) == nil }
+		one = func(n int, challenge []byte) ([]tokens.Token, error) {
+			st, err := type2.NewBasicPublicClient().CreateTokenRequest(challenge, randNonce(r), iss.TokenKeyID(), iss.TokenKey())
+			if err != nil {
+				return nil, err
+			}
+			if !reqObj.Unmarshal(append([]byte{}, st.Request().Marshal()...)) {
+				return nil, fmt.Errorf("request does not decode")
+			}
+			resp, err := iss.Evaluate(reqObj)
+			if err != nil {
+				return nil, err
+			}
+			tok, err := st.FinalizeToken(resp)
+			return []tokens.Token{tok}, err
+		}
+	case 3:
+		w := newT3World(rsaKey(2), c.seed, map[string]string{"seq.example": "a", "": "b", "a-much-longer-origin-name-than-one-block.example": "c"})
+		origins := []string{"seq.example", "a-much-longer-origin-name-than-one-block.example", "", "seq.example"}
+		i := 0
+		oracle = func(tok tokens.Token) bool { return tok.TokenType == 3 && verifyPSS(w.issuer.TokenKey(), tok) == nil }
+		one = func(n int, challenge []byte) ([]tokens.Token, error) {
+			i++
+			art, err := honestT3(w, p384Scalar(c.seed, "seq-client"), p384Scalar(c.seed, fmt.Sprintf("seq-blind-%d", i)), challenge, randNonce(r), origins[i%len(origins)])
+			if err != nil {
+				return nil, err
+			}
+			return []tokens.Token{art.token}, nil
+		}
+	case 5:
+		k := ristrettoKey(c.seed, "k1")
+		iss := type5.NewBatchedPrivateIssuer(k)
+		reqObj := new(type5.BatchedPrivateTokenRequest)
+		oracle = func(tok tokens.Token) bool {
+			return tok.TokenType == 5 && bytes.Equal(fullEvaluate(oprf.SuiteRistretto255, k, authInput(tok)), tok.Authenticator)
+		}
+		one = func(n int, challenge []byte) ([]tokens.Token, error) {
+			nonces := [][]byte{}
+			for j := 0; j < n; j++ {
+				nonces = append(nonces, randNonce(r))
+			}
+			st, err := type5.NewBatchedPrivateClient().CreateTokenRequest(challenge, nonces, iss.TokenKeyID(), iss.TokenKey())
+			if err != nil {
+				return nil, err
+			}
+			if !reqObj.Unmarshal(append([]byte{}, st.Request().Marshal()...)) {
+				return nil, fmt.Errorf("request does not decode")
+			}
+			resp, err := iss.Evaluate(reqObj)
+			if err != nil {
+				return nil, err
+			}
+			return st.FinalizeTokens(resp)
+		}
+	}
+	for i, nv := range gL(in, "ns") {
+		n := jInt(nv)
+		e := ev{"op": "SeqRun", "t": t, "i": i, "n": n, "ok": false, "count": 0, "valid": false, "err": "", "panic": ""}
+		e["panic"] = guard(func() {
+			toks, err := one(n, randBytes(r, 8+i))
+			if err != nil {
+				e["err"] = err.Error()
+				return
+			}
+			e["ok"], e["count"] = true, len(toks)
+			valid := true
+			for _, tok := range toks {
+				valid = valid && oracle(tok)
+				kept = append(kept, tok)
+				keptBytes = append(keptBytes, append([]byte{}, tok.Marshal()...))
+			}
+			e["valid"] = valid
+		})
+		out = append(out, e)
+	}
+	same, valid := true, true
+	for i, tok := range kept {
+		same = same && bytes.Equal(tok.Marshal(), keptBytes[i])
+		valid = valid && oracle(tok)
+	}
+	out = append(out, ev{"op": "SeqRetained", "t": t, "tokens": len(kept), "same": same, "valid": valid})
 	return out
 }
 
@@ -1431,6 +1587,19 @@ func genIssuance(c *ctx, emit func(ev)) {
 			}
 		}
 	}
+	if want("honest") || want("mutations") { // C01, C02: sequences through long-lived objects
+		sid := 0
+		for rep := 0; rep < c.tierInt(2, 6); rep++ {
+			for _, t := range []int{1, 2, 3, 5} {
+				ns := []any{1, 1, 1, 1, 1, 1}
+				if t == 5 {
+					ns = []any{3, 5, 2, 1, 4, 4, 1, 6, 2}
+				}
+				sid++
+				emit(ev{"op": "RunSeq", "t": t, "ns": ns, "sid": sid})
+			}
+		}
+	}
 	if want("mutations") { // C02
 		sizes := map[int]map[string]int{1: {"elem": 49, "proof": 96}, 2: {"sig": 256}, 3: {"rnonce": 16, "ct": 272}, 5: {"len": 1, "elem": 96, "proof": 64}}
 		for _, t := range []int{1, 2, 3, 5} {
@@ -1465,6 +1634,9 @@ func genIssuance(c *ctx, emit func(ev)) {
 				}
 				for _, nl := range []int{0, 31, 33, 64} {
 					run(t, n, 16, 14, ev{"kind": "OddNonce", "len": nl})
+				}
+				for _, kl := range []int{1, 31, 33, 64} {
+					run(t, n, 16, 14, ev{"kind": "OddKeyID", "len": kl})
 				}
 				if t == 2 {
 					run(t, n, 16, 14, ev{"kind": "BigKey"})
@@ -1609,6 +1781,13 @@ func genIssuance(c *ctx, emit func(ev)) {
 						}
 						// repeat one: request creation must be a pure function of its arguments
 						rows = append(rows, ev{"t": t, "key": key, "nc": nc, "blind": names[0], "salt": salt})
+						if t == 2 && salt == "s1" && nc == "n1" {
+							// zero-length salts (twice each, and under two blinds): still a function of the arguments
+							for _, z := range []string{"empty", "nil", "empty", "nil"} {
+								rows = append(rows, ev{"t": 2, "key": key, "nc": nc, "blind": names[0], "salt": z})
+							}
+							rows = append(rows, ev{"t": 2, "key": key, "nc": nc, "blind": names[1], "salt": "empty"})
+						}
 					}
 				}
 			}
